@@ -645,12 +645,16 @@ def run(chk: Check):
         # overlap cycling through None / 0 / 1/3 / 1; one Gram-matrix case per 2-3 photon input
         picked, i, j = [], 0, 0
         for (d, s) in inputs:
-            for loss in ("none", "uniform", "nonuniform"):
+            heavy = sum(s) == 4 and d == 4  # 4 photons on 4 modes: one loss kind per input (cycling)
+            for k_, loss in enumerate(("none", "uniform", "nonuniform")):
+                if heavy and k_ != i % 3:
+                    continue
                 picked.append((d, s, loss, overlaps[i % 4]))
                 i += 1
             i += 1  # shift the cycle from input to input
-            if 2 <= sum(s) <= 3:
+            if 2 <= sum(s) <= 3 and (d <= 3 or j % 3 == 0):
                 picked.append((d, s, ("none", "uniform", "nonuniform")[j % 3], ("gram", j % 2 == 1)))
+            if 2 <= sum(s) <= 3:
                 j += 1
         combos = picked
     else:
@@ -684,7 +688,7 @@ def run(chk: Check):
         for (modes, counts) in ps_patterns(d, sum(s)):
             pats.append((d, s, modes, counts))
     if Tq:
-        pats = [p_ for p_ in pats if p_[0] <= 3] + rng.sample([p_ for p_ in pats if p_[0] > 3], 40)
+        pats = [p_ for p_ in pats if p_[0] <= 3] + rng.sample([p_ for p_ in pats if p_[0] > 3], 24)
     else:
         pats = rng.sample(pats, 6)
     for (d, s, modes, counts) in pats:
